@@ -481,7 +481,9 @@ strings_list split_arguments(const char * line)
 {
   strings_list args;
 
-  char buf[4096];
+  // a token can never be longer than the line it is cut from
+  std::vector<char> storage(std::strlen(line) + 1);
+  char * const buf = &storage[0];
   char * q = buf;
   char in_quoted_string = '\0';
 
